@@ -7,7 +7,7 @@ PID = "C19"
 
 def gen_obj(rng, torch, torchtt):
     dtype = rng.choice([torch.float64, torch.float32, torch.complex128, torch.complex64])
-    kind = rng.choice(["cores", "cores", "svd", "svd-op", "sliced", "sliced-op", "transposed", "arith"])
+    kind = rng.choice(["cores", "cores", "svd", "svd-op", "sliced", "sliced-op", "sliced-op-int", "used-as-operand", "transposed", "arith"])
     d = rng.choice([1, 2, 3, 4, 5, 6])
     if kind == "cores":
         return history.rand_tt(rng, dtype, ttm=rng.random() < 0.4, d=d), kind
@@ -33,6 +33,17 @@ def gen_obj(rng, torch, torchtt):
         A = history.rand_tt(rng, dtype, ttm=True, N=[3, 4][:max(1, min(d, 2))], M=[4, 3][:max(1, min(d, 2))])
         k = len(A.N)
         return A[tuple([slice(0, None, 2)] * k + [slice(1, None, 1)] * k)], kind
+    if kind == "sliced-op-int":                                                      # an integer row/column pair removes a mode pair of an operator
+        A = history.rand_tt(rng, dtype, ttm=True, N=[3, 2, 4], M=[2, 3, 2])
+        return A[(slice(None), 1, slice(None), slice(None), 0, slice(None))], kind
+    if kind == "used-as-operand":                                                    # an over-ranked object after read-only use (reshape / permute / round of it)
+        x = history.rand_tt(rng, dtype, N=[2, 3, 2, 3], rmax=9)
+        x = torchtt.TT([c.clone() for c in x.cores])
+        try:
+            torchtt.reshape(x, [6, 6]); torchtt.permute(x, [1, 0, 3, 2]); x.round(1e-10)
+        except Exception:
+            pass
+        return x, kind
     if kind == "transposed":
         return history.rand_tt(rng, dtype, ttm=True, d=min(d, 3)).t(), kind       # permuted (non-contiguous) cores
     x = history.rand_tt(rng, dtype, d=d)
@@ -92,7 +103,8 @@ def run(tier, seed, replay=None):
                     zc = [c.detach().resolve_conj().numpy() for c in z.cores]
                     okv = (len(zc) == len(x.cores) and all(a.shape == tuple(b.shape) for a, b in zip(zc, x.cores))
                            and all(np.array_equal(a, b.detach().resolve_conj().numpy().astype(a.dtype)) for a, b in zip(zc, x.cores))
-                           and not history.wf_failures(z) and [int(v) for v in z.R] == [int(v) for v in x.R])
+                           and not history.wf_failures(z) and [int(v) for v in z.R] == [int(v) for v in x.R]
+                           and [int(v) for v in z.N] == [int(v) for v in x.N] and history.Mof(z) == history.Mof(x) and list(z.shape) == list(x.shape) and bool(z.is_ttm) == bool(x.is_ttm))
                     if name == "to" and str(z.cores[0].dtype) != ("torch.complex128" if x.cores[0].dtype.is_complex else "torch.float64"): okv = False
                     if name != "to" and z.cores[0].dtype != x.cores[0].dtype: okv = False
                     if name == "clone":
